@@ -1603,11 +1603,12 @@ pub fn write_json_seeds(dir: &Path) {
             .collect();
         let mut ch = Choices::new(data);
         let mut so = SchemaGenOpts::default();
-        so.max_objects = 2;
+        so.max_objects = 1;
+        so.descriptions = 0;
         let gs = gen_schema(&mut ch, &so);
         let io = IntrospectOpts { meta_types: false, absent_optionals: i % 2 == 0, shuffle: false };
         let js = introspect(&gs.schema, &io, None);
-        if js.len() <= 8000 {
+        if js.len() <= 16000 {
             std::fs::write(d.join(format!("s{i:02}.json")), js).unwrap();
         }
     }
